@@ -46,41 +46,53 @@ def run_case(case, work):
         out['build_error'] = f'{type(e).__name__}: {e}'
         out['tb'] = traceback.format_exc()[-500:]
         return out
+    ts_arg = case.get('ts_arg', 'True' if case['time_series'] else 'False')
+    kw = {} if ts_arg == 'omitted' else {'time_series': eval(ts_arg, {'np': np})}
+
+    def read_and_dump():
+        o = {}
+        r = femio.FEMData.read_directory('fistr', str(d), read_npy=False, save=False, **kw)
+        o['node_ids'] = [int(i) for i in r.nodes.ids]
+        o['types'] = [[t, [int(i) for i in ids]] for t, ids in r.elements.dict_type_ids.items()]
+        o['time_steps'] = r.settings.get('time_steps')
+        nd, ed = [], []
+        if case['time_series']:
+            for k, v in r.nodal_data.items():
+                if k == 'NODE':
+                    continue
+                a = np.asarray(v.data)
+                nd.append([k, [int(i) for i in v.ids],
+                           [[[tok(x) for x in np.atleast_1d(row)] for row in fr] for fr in a]])
+            for k, v in r.elemental_data.items():
+                a = v.data
+                ed.append([k, list(v.keys()), [int(i) for i in v.ids],
+                           [[[tok(x) for x in np.atleast_1d(np.asarray(row, dtype=float))] for row in fr]
+                            for fr in a]])
+        else:
+            for k, v in r.nodal_data.items():
+                if k == 'NODE':
+                    continue
+                nd.append([k, [[int(i), [tok(x) for x in np.atleast_1d(row)]]
+                               for i, row in zip(v.ids, v.data)]])
+            for k, v in r.elemental_data.items():
+                ed.append([k, [[t, [[int(i), [tok(x) for x in np.atleast_1d(row)]]
+                                    for i, row in zip(a.ids, a.data)]] for t, a in v.items()]])
+        o['nodal'] = nd
+        o['elemental'] = ed
+        return o
+
     try:
-        r = femio.FEMData.read_directory('fistr', str(d), read_npy=False, save=False,
-                                         time_series=case['time_series'])
+        out.update(read_and_dump())
+        if case.get('read_twice'):
+            # the same query twice: the second answer must be the first
+            again = read_and_dump()
+            out['second_read_differs'] = any(again[k] != out[k] for k in again)
     except Exception as e:
         out['read_error'] = f'{type(e).__name__}: {e}'
         out['tb'] = traceback.format_exc()[-700:]
         return out
-    out['node_ids'] = [int(i) for i in r.nodes.ids]
-    out['types'] = [[t, [int(i) for i in ids]] for t, ids in r.elements.dict_type_ids.items()]
-    out['time_steps'] = r.settings.get('time_steps')
-    nd, ed = [], []
-    if case['time_series']:
-        for k, v in r.nodal_data.items():
-            if k == 'NODE':
-                continue
-            a = np.asarray(v.data)
-            nd.append([k, [int(i) for i in v.ids],
-                       [[[tok(x) for x in np.atleast_1d(row)] for row in fr] for fr in a]])
-        for k, v in r.elemental_data.items():
-            a = v.data
-            ed.append([k, list(v.keys()), [int(i) for i in v.ids],
-                       [[[tok(x) for x in np.atleast_1d(np.asarray(row, dtype=float))] for row in fr]
-                        for fr in a]])
-    else:
-        for k, v in r.nodal_data.items():
-            if k == 'NODE':
-                continue
-            nd.append([k, [[int(i), [tok(x) for x in np.atleast_1d(row)]]
-                           for i, row in zip(v.ids, v.data)]])
-        for k, v in r.elemental_data.items():
-            ed.append([k, [[t, [[int(i), [tok(x) for x in np.atleast_1d(row)]]
-                                for i, row in zip(a.ids, a.data)]] for t, a in v.items()]])
-    out['nodal'] = nd
-    out['elemental'] = ed
-    shutil.rmtree(d, ignore_errors=True)
+    if not case.get('path_key'):
+        shutil.rmtree(d, ignore_errors=True)
     return out
 
 
